@@ -32,6 +32,15 @@ TRUSTED_EXTRA = (
     "C03: wall-clock time limit and tolerance testers are adversarial inputs of the model; the harness feeds the model the termination it observed",
 )
 
+
+
+def pre_lean(ctx) -> None:
+    """Translator: regenerate lean/GemseoVerif/Gen/C03Term.lean (termination-exception table) from the sources."""
+    from harness import translate_c03
+
+    ctx.term_table = translate_c03.write()
+
+
 COMPOSITE = {"MultiStart", "Augmented_Lagrangian_order_0", "Augmented_Lagrangian_order_1", "MNBI"}
 LINEAR_ONLY = {"DUAL_SIMPLEX", "INTERIOR_POINT", "Scipy_MILP"}
 
@@ -518,9 +527,58 @@ def run(ctx) -> Result:
                 continue
             res.count("algo:" + algo)
             check_runs(res, runs, "doe" if is_doe else "opt", batch)
+    termination_family_stream(res, ctx)
     res.extra["algorithms_skipped_unsuited_or_unconfigurable"] = sorted(set(skipped))[:60]
     compare_with_model(res, batch)
     return res
+
+
+def termination_family_stream(res: Result, ctx) -> None:
+    """Directed search behind the translator-fed obligation `raised_all_caught`: every exception class of
+    `stop_criteria.py` is raised from inside a driver's `_run` after some evaluations; `execute` must return a
+    result built from the recorded history (property: "... the driver still returns a result instead of raising").
+    Also cross-checks the translated class table against run-time introspection."""
+    from gemseo.algos import stop_criteria as sc
+    from harness import translate_c03
+    from harness.c03_lib import RaisingOpt
+
+    table = getattr(ctx, "term_table", None) or translate_c03.extract()
+    rt = translate_c03.runtime_table()
+    if sorted(map(tuple, table["classes"])) != rt["classes"]:
+        res.notes.append(f"translator/introspection mismatch on the exception classes: {table['classes']} vs {rt['classes']}")
+        res.count("translator-crosscheck-mismatch")
+    else:
+        res.count("translator-crosscheck-ok")
+    names = sorted(set(table["raised"]) | {n for n, _ in rt["classes"]})
+    for name in names:
+        cls = rt["family"].get(name)
+        if cls is None:
+            continue
+        for kind in ("none", "both"):
+            with tracing() as tr:
+                pb = make_problem(kind, tr)
+                script = [["f", "v", [0.5, 0.5]], ["f", "v", [0.0, -0.5]]]
+                if kind == "both":
+                    script += [["g", "v", [0.0, -0.5]], ["h", "v", [0.0, -0.5]]]
+                out: dict[str, Any] = {}
+                try:
+                    r = RaisingOpt(script, cls).execute(pb, max_iter=10, enable_progress_bar=False)
+                    out["result_none"] = r is None
+                    out["x_opt"] = None if r is None or r.x_opt is None else [float(t) for t in r.x_opt]
+                except Exception as e:  # noqa: BLE001
+                    out["raised"] = f"{type(e).__name__}: {str(e)[:100]}"
+            res.evaluations += 1
+            res.count("termination-class:" + name)
+            res.nontrivial(("term", name, kind))
+            ok = "raised" not in out and out.get("result_none") is False and out.get("x_opt") is not None
+            if not ok:
+                res.violate(
+                    "oracle",
+                    "termination-escapes:" + name,
+                    f"a driver stopped by {name} (problem kind {kind!r}, 2 recorded points) does not return a result built "
+                    f"from the recorded history: {out}",
+                    {"termination_class": name, "kind": kind, "observed": out},
+                )
 
 
 def replay(path: str) -> int:
@@ -535,5 +593,19 @@ def replay(path: str) -> int:
         for k, m in bad:
             print("ORACLE FAILS:", k, m)
         return 1 if bad else 0
+    if rp.get("termination_class"):
+        from gemseo.algos import stop_criteria as sc
+        from harness.c03_lib import RaisingOpt
+
+        cls = getattr(sc, rp["termination_class"])
+        with tracing() as tr:
+            pb = make_problem(rp["kind"], tr)
+            try:
+                r = RaisingOpt([["f", "v", [0.5, 0.5]], ["f", "v", [0.0, -0.5]]], cls).execute(pb, max_iter=10, enable_progress_bar=False)
+                print("execute returned", r is not None and r.x_opt)
+                return 0 if r is not None and r.x_opt is not None else 1
+            except Exception as e:  # noqa: BLE001
+                print("ORACLE FAILS: execute raised", type(e).__name__, e)
+                return 1
     print(json.dumps(rp, indent=1)[:4000])
     return 1
